@@ -59,7 +59,7 @@ def check(case):
 
 @st.composite
 def cases(draw, max_feats=14):
-    return {"model": draw(S.model_specs(S.JSON, 1, max_feats)), "cycles": draw(st.integers(2, 4))}
+    return {"model": draw(S.model_specs(S.JSON, 1, max_feats)), "cycles": draw(st.integers(3, 4))}
 
 
 def _plain(n):
